@@ -118,6 +118,13 @@ func init() {
 			sb.WriteString("\ndef " + x[1] + "Conds : List String := " + LeanStrList(c05Conds(fd)) + "\n")
 			sb.WriteString("\ndef " + x[1] + "Assigns : List String := " + LeanStrList(c05Assigns(fd)) + "\n")
 		}
+		sa := FindFunc(qf, "queue", "SetAppendedSeq")
+		if sa == nil {
+			return "", fmt.Errorf("queue.SetAppendedSeq not found")
+		}
+		sb.WriteString("\ndef setAppendedAccesses : List String := " + LeanStrList(c05Accesses(sa)) + "\n")
+		sb.WriteString("\ndef setAppendedConds : List String := " + LeanStrList(c05Conds(sa)) + "\n")
+		sb.WriteString("\ndef setAppendedAssigns : List String := " + LeanStrList(c05Assigns(sa)) + "\n")
 		sb.WriteString("\ndef gcCallSeq : List String := " + LeanStrList(CallSeq(FindFunc(qf, "queue", "GC"))) + "\n")
 		// ---- MappedPage.WriteBytes is a plain copy
 		_, mf, err := ParseFile(repo, "pkg/queue/page/mpage.go")
@@ -144,6 +151,15 @@ func init() {
 		for _, st := range wb.Body.List {
 			body = append(body, c05Text(st))
 		}
+		rb := FindFunc(mf, "mappedPage", "ReadBytes")
+		if rb == nil || rb.Body == nil {
+			return "", fmt.Errorf("mappedPage.ReadBytes not found")
+		}
+		var rbody []string
+		for _, st := range rb.Body.List {
+			rbody = append(rbody, c05Text(st))
+		}
+		sb.WriteString("\ndef readBytesBody : List String := " + LeanStrList(rbody) + "\n")
 		sb.WriteString("\ndef writeBytesBody : List String := " + LeanStrList(body) + "\n")
 		return sb.String(), nil
 	}})
@@ -162,6 +178,12 @@ func c05Text(n ast.Node) string {
 		return types.ExprString(x)
 	case *ast.ExprStmt:
 		return types.ExprString(x.X)
+	case *ast.ReturnStmt:
+		var r []string
+		for _, e := range x.Results {
+			r = append(r, types.ExprString(e))
+		}
+		return "return " + strings.Join(r, ", ")
 	case *ast.AssignStmt:
 		var l, r []string
 		for _, e := range x.Lhs {
